@@ -14,19 +14,19 @@ package auth
 
 // Auth encoding (C17): type id, then the public key, then the signature; decoding accepts exactly the
 // byte strings of that length and type id and recovers key and signature, so encode/decode round-trip.
-//@ func (*ED25519).Bytes props C17
+//@ func (*ED25519).Bytes props C17 C15
 //@   ensures len(result) == 97 && result[0] == ED25519ID
 //@   ensures forall j int :: 0 <= j && j < 32 ==> result[1 + j] == d.Signer[j]
 //@   ensures forall j int :: 0 <= j && j < 64 ==> result[33 + j] == d.Signature[j]
-//@ func (*SECP256R1).Bytes props C17
+//@ func (*SECP256R1).Bytes props C17 C15
 //@   ensures len(result) == 98 && result[0] == SECP256R1ID
 //@   ensures forall j int :: 0 <= j && j < 33 ==> result[1 + j] == d.Signer[j]
 //@   ensures forall j int :: 0 <= j && j < 64 ==> result[34 + j] == d.Signature[j]
-//@ func UnmarshalED25519 props C17
+//@ func UnmarshalED25519 props C17 C15
 //@   ensures (err == nil) == (len(bytes) == 97 && bytes[0] == ED25519ID)
 //@   ensures err == nil ==> forall j int :: 0 <= j && j < 32 ==> as(ED25519, result0).Signer[j] == bytes[1 + j]
 //@   ensures err == nil ==> forall j int :: 0 <= j && j < 64 ==> as(ED25519, result0).Signature[j] == bytes[33 + j]
-//@ func UnmarshalSECP256R1 props C17
+//@ func UnmarshalSECP256R1 props C17 C15
 //@   ensures (err == nil) == (len(bytes) == 98 && bytes[0] == SECP256R1ID)
 //@   ensures err == nil ==> forall j int :: 0 <= j && j < 33 ==> as(SECP256R1, result0).Signer[j] == bytes[1 + j]
 //@   ensures err == nil ==> forall j int :: 0 <= j && j < 64 ==> as(SECP256R1, result0).Signature[j] == bytes[34 + j]
